@@ -733,7 +733,14 @@ class Exec:
             if r == z3.unsat:
                 break
             if r != z3.sat:
-                raise EngineError('concretize: solver unknown for %s' % what)
+                # one retry with ten times the feasibility budget before giving up
+                s.set('timeout', self.feas_timeout * 10)
+                r = s.check()
+                s.set('timeout', self.feas_timeout)
+                if r == z3.unsat:
+                    break
+                if r != z3.sat:
+                    raise EngineError('concretize: solver unknown for %s' % what)
             v = s.model().eval(t, model_completion=True).as_long()
             vals.append(v)
             if len(vals) > limit:
